@@ -744,7 +744,7 @@ def run(ctx):
     # nothing drains any more never clears) keeps the destructor in the client for ever.
     for q in ("Oomd::StatsClient::msgSocket",):
         f = ctx.use(ctx.fn1(q))
-        steps = f.calls("connect", "socket", "setsockopt", "Util::writeFull", "send")
+        steps = f.calls("connect", "socket", "Util::writeFull", "send")
         ctx.count("client_request_steps", len(steps))
         inl = {}
         for l in loops(f):
@@ -764,7 +764,7 @@ def run(ctx):
             ctx.check("errno" not in ct and "__errno_location" not in ct, "client-request-makes-one-attempt:loop@%d" % (f.nodes[st].get("line", 0) if st is not None else 0),
                       "loop condition", f.loc(st) if st is not None else f.loc(), "no loop of the request continues on an error code",
                       "StatsClient::msgSocket loops while %s: the request repeats a failing step instead of returning the failure, without bound" % ct[:100])
-    ctx.floor("client_request_steps", 4, "socket/setsockopt/connect/write steps in StatsClient::msgSocket")
+    ctx.floor("client_request_steps", 3, "socket/connect/write steps in StatsClient::msgSocket")
 
     # ------------------------------------------------ service threads cannot die of an exception
     for t_usr, creator, node in cg.thread_roots:
